@@ -161,8 +161,8 @@ def execute(ctx, case: dict) -> None:
     C03._drain(case, ctx)
 
 
-def gen_acl_case(rng, platform):
-    n = rng.randint(2, 12)
+def gen_acl_case(rng, platform, n=None):
+    n = n or rng.randint(2, 12)
     lines = []
     descs = []
     small = sc.SMALL if rng.random() < 0.8 else None
@@ -199,6 +199,28 @@ def run(ctx) -> None:
     rng = ctx.rng
     n_max = {"quick": 2500, "thorough": 40000}[ctx.tier]
     done = 0
+    if ctx.shard in (4, 11):
+        # both sides wide: two non-contiguous wildcards of 9..10 bits (512 x 1024 network pairs), one inside the other
+        narrow, wide = ("10.0.0.0 0.255.2.127", "10.0.0.0 0.255.2.255") if ctx.shard == 4 else ("172.16.0.0 0.15.255.4", "172.16.0.0 0.31.255.6")
+        for top_a, bot_a in ((narrow, wide), (wide, narrow), (narrow, narrow)):
+            side = "src" if ctx.shard == 4 else "dst"
+            top = {"action": "permit", "proto": 0, "src": "any", "dst": "any"}
+            bot = dict(top)
+            top[side], bot[side] = top_a, bot_a
+            case = {"k": "pair", "platform": "ios", "top": top, "bottom": bot}
+            execute(ctx, case)
+            case.pop("_answer", None)
+            ctx.count("wide_wide_pairs")
+            ctx.judged(sig=("wide-wide", top_a, bot_a), nontrivial=True, sample=case)
+            done += 1
+    if ctx.shard in (5, 12):
+        # a long ACL (well over 100 entries): the report clause does not depend on the length
+        case = gen_acl_case(rng, "ios" if ctx.shard == 5 else "nxos", n=rng.randint(120, 150))
+        case["handmade_groups"] = []
+        execute(ctx, case)
+        ctx.count("long_acls")
+        ctx.judged(sig=("long-acl", ctx.shard), nontrivial=True)
+        done += 1
     while done < n_max and not ctx.expired():
         platform = rng.choice(["ios", "nxos"])
         before = STATS.get("shadow_of_calls_judged", 0) + STATS.get("reports_judged", 0)
